@@ -15,6 +15,7 @@
 #include <ksi/ksi.h>
 #include <ksi/net_async.h>
 #include <ksi/net_tcp.h>
+#include <ksi/net_ha.h>
 #include <ksi/impl/net_async_impl.h>
 #include <sys/socket.h>
 #include <sys/ioctl.h>
@@ -26,27 +27,38 @@
 #include "hx.h"
 
 /* ---------------------------------------------------------------- scripted socket layer */
+/* Several endpoints (hosts h0.example .. h3.example) each with their own connection state; `EP k` selects the one the
+ * following S2C/CHUNKS/SENDCAPS/POLL/PEERCLOSE/PEERRESET/CONNECT/GAI commands address.  fd = FD_BASE + ep*FD_EP + connection number. */
 #define FD_BASE 700
-static int conn_no = 0, cur_fd = -1;
-static time_t vclock = 1600000000;
-static unsigned char *s2c = NULL; static size_t s2c_len = 0, s2c_cap = 0;
-static int peer_closed = 0, peer_reset = 0;
-static long chunks[4096]; static int nchunks = 0, chunk_i = 0;
-static long sendcaps[4096]; static int ncaps = 0, cap_i = 0;
+#define FD_EP 10000
+#define NEP 4
 enum { P_READY, P_NOTREADY, P_HUP, P_ERR, P_NOOUT };
-static int poll_mode = P_READY, connect_mode = 0, gai_fail = 0;
-static const unsigned char *rbase = NULL;
+typedef struct {
+	int conn_no;
+	unsigned char *s2c; size_t s2c_len, s2c_cap;
+	int peer_closed, peer_reset;
+	long chunks[4096]; int nchunks, chunk_i;
+	long sendcaps[4096]; int ncaps, cap_i;
+	int poll_mode, connect_mode, gai_fail;
+	const unsigned char *rbase;
+} Ep;
+static Ep eps[NEP]; static int cur_ep = 0, pending_ep = 0;
+static time_t vclock = 1600000000;
+#define EPOF(fd) (&eps[((fd) - FD_BASE) / FD_EP])
+#define EPNO(fd) (((fd) - FD_BASE) / FD_EP)
+#define CNO(fd) (((fd) - FD_BASE) % FD_EP)
 
 time_t __wrap_time(time_t *t) { if (t) *t = vclock; return vclock; }
 int __real_close(int fd);
 int __wrap_close(int fd) {
-	if (fd >= FD_BASE) { printf("E close c=%d\n", fd - FD_BASE); if (fd == cur_fd) cur_fd = -1; return 0; }
+	if (fd >= FD_BASE) { printf("E close ep=%d c=%d\n", EPNO(fd), CNO(fd)); return 0; }
 	return __real_close(fd);
 }
 int __wrap_getaddrinfo(const char *node, const char *service, const struct addrinfo *hints, struct addrinfo **res) {
 	struct addrinfo *ai; struct sockaddr_in *sa;
-	printf("E getaddrinfo host=%s port=%s\n", node ? node : "-", service ? service : "-");
-	if (gai_fail) return EAI_FAIL;
+	pending_ep = (node && node[0] == 'h' && node[1] >= '0' && node[1] < '0' + NEP) ? node[1] - '0' : 0;
+	printf("E getaddrinfo ep=%d host=%s port=%s\n", pending_ep, node ? node : "-", service ? service : "-");
+	if (eps[pending_ep].gai_fail) return EAI_FAIL;
 	ai = calloc(1, sizeof(*ai)); sa = calloc(1, sizeof(*sa));
 	sa->sin_family = AF_INET;
 	ai->ai_family = AF_INET; ai->ai_socktype = SOCK_STREAM; ai->ai_protocol = IPPROTO_TCP; ai->ai_addr = (struct sockaddr *)sa; ai->ai_addrlen = sizeof(*sa);
@@ -54,62 +66,104 @@ int __wrap_getaddrinfo(const char *node, const char *service, const struct addri
 	return 0;
 }
 void __wrap_freeaddrinfo(struct addrinfo *ai) { if (ai) { free(ai->ai_addr); free(ai); } }
-int __wrap_socket(int d, int t, int p) { (void)d; (void)t; (void)p; conn_no++; cur_fd = FD_BASE + conn_no;
-	s2c_len = 0; peer_closed = 0; peer_reset = 0; rbase = NULL;
-	printf("E socket c=%d\n", conn_no); return cur_fd; }
+int __wrap_socket(int d, int t, int p) { Ep *e = &eps[pending_ep]; (void)d; (void)t; (void)p;
+	e->conn_no++; e->s2c_len = 0; e->peer_closed = 0; e->peer_reset = 0; e->rbase = NULL;
+	printf("E socket ep=%d c=%d\n", pending_ep, e->conn_no); return FD_BASE + pending_ep * FD_EP + e->conn_no; }
 int __wrap_ioctl(int fd, unsigned long req, ...) { (void)fd; (void)req; return 0; }
-int __wrap_connect(int fd, const struct sockaddr *a, socklen_t l) { (void)a; (void)l;
-	printf("E connect c=%d mode=%d\n", fd - FD_BASE, connect_mode);
-	if (connect_mode == 1) return 0;
-	if (connect_mode == 2) { errno = ECONNREFUSED; return -1; }
+int __wrap_connect(int fd, const struct sockaddr *a, socklen_t l) { Ep *e = EPOF(fd); (void)a; (void)l;
+	printf("E connect ep=%d c=%d mode=%d\n", EPNO(fd), CNO(fd), e->connect_mode);
+	if (e->connect_mode == 1) return 0;
+	if (e->connect_mode == 2) { errno = ECONNREFUSED; return -1; }
 	errno = EINPROGRESS; return -1; }
-int __wrap_poll(struct pollfd *fds, nfds_t n, int timeout) { (void)n; (void)timeout;
+int __wrap_poll(struct pollfd *fds, nfds_t n, int timeout) { Ep *e = EPOF(fds->fd); (void)n; (void)timeout;
 	int r = 1;
 	fds->revents = 0;
-	switch (poll_mode) {
+	switch (e->poll_mode) {
 		case P_NOTREADY: r = 0; break;
 		case P_HUP: fds->revents = POLLHUP; break;
 		case P_ERR: errno = EBADF; r = -1; break;
-		case P_NOOUT: if (s2c_len > 0 || peer_closed || peer_reset) fds->revents |= POLLIN; if (!fds->revents) r = 0; break;
-		default: fds->revents = POLLOUT; if (s2c_len > 0 || peer_closed || peer_reset) fds->revents |= POLLIN; break;
+		case P_NOOUT: if (e->s2c_len > 0 || e->peer_closed || e->peer_reset) fds->revents |= POLLIN; if (!fds->revents) r = 0; break;
+		default: fds->revents = POLLOUT; if (e->s2c_len > 0 || e->peer_closed || e->peer_reset) fds->revents |= POLLIN; break;
 	}
-	printf("E poll c=%d ret=%d revents=%d\n", fds->fd - FD_BASE, r, (int)fds->revents);
+	printf("E poll ep=%d c=%d ret=%d revents=%d\n", EPNO(fds->fd), CNO(fds->fd), r, (int)fds->revents);
 	return r; }
-ssize_t __wrap_recv(int fd, void *buf, size_t len, int flags) { (void)flags;
+ssize_t __wrap_recv(int fd, void *buf, size_t len, int flags) { Ep *e = EPOF(fd); (void)flags;
 	size_t n = len; long off;
-	if (rbase == NULL || (const unsigned char *)buf < rbase) rbase = buf;
-	off = (long)((const unsigned char *)buf - rbase);
-	if (chunk_i < nchunks) { long c = chunks[chunk_i++]; if (c == 0) { printf("E recv c=%d off=%ld len=%zu ret=EWOULDBLOCK\n", fd - FD_BASE, off, len); errno = EWOULDBLOCK; return -1; } if ((size_t)c < n) n = (size_t)c; }
-	if (s2c_len == 0) {
-		if (peer_reset) { printf("E recv c=%d off=%ld len=%zu ret=ECONNRESET\n", fd - FD_BASE, off, len); errno = ECONNRESET; return -1; }
-		if (peer_closed) { printf("E recv c=%d off=%ld len=%zu ret=0\n", fd - FD_BASE, off, len); return 0; }
-		printf("E recv c=%d off=%ld len=%zu ret=EWOULDBLOCK\n", fd - FD_BASE, off, len); errno = EWOULDBLOCK; return -1;
+	if (e->rbase == NULL || (const unsigned char *)buf < e->rbase) e->rbase = buf;
+	off = (long)((const unsigned char *)buf - e->rbase);
+	if (e->chunk_i < e->nchunks) { long c = e->chunks[e->chunk_i++]; if (c == 0) { printf("E recv ep=%d c=%d off=%ld len=%zu ret=EWOULDBLOCK\n", EPNO(fd), CNO(fd), off, len); errno = EWOULDBLOCK; return -1; } if ((size_t)c < n) n = (size_t)c; }
+	if (e->s2c_len == 0) {
+		if (e->peer_reset) { printf("E recv ep=%d c=%d off=%ld len=%zu ret=ECONNRESET\n", EPNO(fd), CNO(fd), off, len); errno = ECONNRESET; return -1; }
+		if (e->peer_closed) { printf("E recv ep=%d c=%d off=%ld len=%zu ret=0\n", EPNO(fd), CNO(fd), off, len); return 0; }
+		printf("E recv ep=%d c=%d off=%ld len=%zu ret=EWOULDBLOCK\n", EPNO(fd), CNO(fd), off, len); errno = EWOULDBLOCK; return -1;
 	}
-	if (n > s2c_len) n = s2c_len;
-	memcpy(buf, s2c, n); memmove(s2c, s2c + n, s2c_len - n); s2c_len -= n;
-	printf("E recv c=%d off=%ld len=%zu ret=%zu\n", fd - FD_BASE, off, len, n);
+	if (n > e->s2c_len) n = e->s2c_len;
+	memcpy(buf, e->s2c, n); memmove(e->s2c, e->s2c + n, e->s2c_len - n); e->s2c_len -= n;
+	printf("E recv ep=%d c=%d off=%ld len=%zu ret=%zu\n", EPNO(fd), CNO(fd), off, len, n);
 	return (ssize_t)n; }
-ssize_t __wrap_send(int fd, const void *buf, size_t len, int flags) { (void)flags;
+ssize_t __wrap_send(int fd, const void *buf, size_t len, int flags) { Ep *e = EPOF(fd); (void)flags;
 	size_t n = len;
-	if (cap_i < ncaps) { long c = sendcaps[cap_i++];
-		if (c == 0) { printf("E send c=%d len=%zu ret=EWOULDBLOCK\n", fd - FD_BASE, len); errno = EWOULDBLOCK; return -1; }
-		if (c < 0) { printf("E send c=%d len=%zu ret=EPIPE\n", fd - FD_BASE, len); errno = EPIPE; return -1; }
+	if (e->cap_i < e->ncaps) { long c = e->sendcaps[e->cap_i++];
+		if (c == 0) { printf("E send ep=%d c=%d len=%zu ret=EWOULDBLOCK\n", EPNO(fd), CNO(fd), len); errno = EWOULDBLOCK; return -1; }
+		if (c < 0) { printf("E send ep=%d c=%d len=%zu ret=EPIPE\n", EPNO(fd), CNO(fd), len); errno = EPIPE; return -1; }
 		if ((size_t)c < n) n = (size_t)c; }
-	printf("E send c=%d len=%zu ret=%zu data=", fd - FD_BASE, len, n); hx_print(buf, n); printf("\n");
+	printf("E send ep=%d c=%d len=%zu ret=%zu data=", EPNO(fd), CNO(fd), len, n); hx_print(buf, n); printf("\n");
 	return (ssize_t)n; }
 
 /* ---------------------------------------------------------------- service level */
 #define MAXH 4096
 static KSI_CTX *ctx; static KSI_AsyncService *as; static KSI_AsyncHandle *held[MAXH];
+static KSI_AsyncService *svc[8]; static int nsvc = 0;
 static KSI_AsyncClient *tc; static int owned[MAXH]; /* held[i] is owned by the caller (bare TCP mode) or borrowed from the service */
 
-static void reset_net(void) { conn_no = 0; cur_fd = -1; s2c_len = 0; peer_closed = peer_reset = 0; nchunks = chunk_i = ncaps = cap_i = 0; poll_mode = P_READY; connect_mode = 0; gai_fail = 0; rbase = NULL; vclock = 1600000000; }
-static void free_all(void) { int i; for (i = 0; i < MAXH; i++) { if (owned[i]) KSI_AsyncHandle_free(held[i]); held[i] = NULL; owned[i] = 0; } KSI_AsyncService_free(as); as = NULL; KSI_AsyncClient_free(tc); tc = NULL; KSI_CTX_free(ctx); ctx = NULL; }
+static void reset_net(void) { int k; for (k = 0; k < NEP; k++) { free(eps[k].s2c); memset(&eps[k], 0, sizeof(Ep)); } cur_ep = pending_ep = 0; vclock = 1600000000; }
+static void free_all(void) { int i; nsvc = 0; memset(svc, 0, sizeof(svc)); for (i = 0; i < MAXH; i++) { if (owned[i]) KSI_AsyncHandle_free(held[i]); held[i] = NULL; owned[i] = 0; } KSI_AsyncService_free(as); as = NULL; KSI_AsyncClient_free(tc); tc = NULL; KSI_CTX_free(ctx); ctx = NULL; }
+
+/* sub-service calls made by the HA service (net_ha.o -> net_async.o) are interposed too: they are the linearization points of C15 */
+static int svc_index(KSI_AsyncService *s) { int i; if (s == as) return -1; for (i = 0; i < nsvc; i++) if (svc[i] == s) return i; if (nsvc < 8) { svc[nsvc] = s; return nsvc++; } return 99; }
+static long tag_of_sub(KSI_AsyncHandle *h) {
+	const void *c = NULL; const void *t = NULL; KSI_HighAvailabilityRequest *har;
+	if (h == NULL || KSI_AsyncHandle_getRequestCtx(h, &c) != KSI_OK || c == NULL) return -1;
+	har = (KSI_HighAvailabilityRequest *)c;
+	if (har->asyncHandle == NULL || KSI_AsyncHandle_getRequestCtx(har->asyncHandle, &t) != KSI_OK || t == NULL) return -1;
+	return (long)(size_t)t - 1;
+}
+int __real_KSI_AsyncService_addRequest(KSI_AsyncService *s, KSI_AsyncHandle *h);
+int __wrap_KSI_AsyncService_addRequest(KSI_AsyncService *s, KSI_AsyncHandle *h) {
+	int k = svc_index(s); long t = (k >= 0) ? tag_of_sub(h) : -1;
+	int rc = __real_KSI_AsyncService_addRequest(s, h);
+	if (k >= 0) printf("E subadd s=%d q=%ld rc=0x%x\n", k, t, rc);
+	return rc;
+}
+int __real_KSI_AsyncService_run(KSI_AsyncService *s, KSI_AsyncHandle **h, size_t *w);
+int __wrap_KSI_AsyncService_run(KSI_AsyncService *s, KSI_AsyncHandle **h, size_t *w) {
+	int k = svc_index(s);
+	int rc = __real_KSI_AsyncService_run(s, h, w);
+	if (k >= 0) {
+		printf("E subrun s=%d rc=0x%x", k, rc);
+		if (h != NULL && *h != NULL) { int st = -1, err = 0; long ext = 0; KSI_AsyncHandle_getState(*h, &st); KSI_AsyncHandle_getError(*h, &err); KSI_AsyncHandle_getExtError(*h, &ext);
+			printf(" q=%ld state=%d err=0x%x ext=%ld", st == KSI_ASYNC_STATE_PUSH_CONFIG_RECEIVED ? -2L : tag_of_sub(*h), st, err, ext); }
+		else printf(" q=-");
+		printf("\n");
+	}
+	return rc;
+}
+
+static void print_cfg(KSI_Config *cfg) {
+	KSI_Integer *v = NULL;
+	if (cfg == NULL) { printf(" conf=NULL"); return; }
+#define PF(name, getter) v = NULL; getter(cfg, &v); if (v) printf(" " name "=%llu", (unsigned long long)KSI_Integer_getUInt64(v)); else printf(" " name "=-");
+	PF("maxlevel", KSI_Config_getMaxLevel) PF("algo", KSI_Config_getAggrAlgo) PF("period", KSI_Config_getAggrPeriod) PF("maxreq", KSI_Config_getMaxRequests)
+	PF("calfirst", KSI_Config_getCalendarFirstTime) PF("callast", KSI_Config_getCalendarLastTime)
+}
 
 static void print_handle(KSI_AsyncHandle *h) {
-	int st = -1, err = 0; long ext = 0; const void *tag = NULL; KSI_uint64_t id = 0;
+	int st = -1, err = 0; long ext = 0; const void *tag = NULL; KSI_uint64_t id = 0; size_t parent = 0;
 	KSI_AsyncHandle_getState(h, &st); KSI_AsyncHandle_getError(h, &err); KSI_AsyncHandle_getExtError(h, &ext);
 	KSI_AsyncHandle_getRequestCtx(h, &tag); KSI_AsyncHandle_getRequestId(h, &id);
+	if (st == KSI_ASYNC_STATE_ERROR_NOTICE && tag != NULL) { const void *t2 = NULL; KSI_AsyncHandle_getRequestCtx((KSI_AsyncHandle *)tag, &t2); tag = t2; }
+	if (st == KSI_ASYNC_STATE_PUSH_CONFIG_RECEIVED && nsvc > 0) tag = NULL;
+	KSI_AsyncHandle_getParentId(h, &parent); (void)parent;
 	printf(" h=%ld state=%d err=0x%x ext=%ld id=%llu", (long)(size_t)tag - 1, st, err, ext, (unsigned long long)id);
 	if (st == KSI_ASYNC_STATE_RESPONSE_RECEIVED) {
 		KSI_Signature *sig = NULL; KSI_DataHash *in = NULL; int rc = KSI_AsyncHandle_getSignature(h, &sig);
@@ -117,8 +171,7 @@ static void print_handle(KSI_AsyncHandle *h) {
 		if (rc == KSI_OK && KSI_Signature_getDocumentHash(sig, &in) == KSI_OK) { const unsigned char *imp; size_t n; KSI_DataHash_getImprint(in, &imp, &n); printf(" sighash="); hx_print(imp, n); }
 		KSI_Signature_free(sig);
 	} else if (st == KSI_ASYNC_STATE_PUSH_CONFIG_RECEIVED) {
-		KSI_Config *cfg = NULL; KSI_Integer *ml = NULL; KSI_AsyncHandle_getConfig(h, &cfg); if (cfg) KSI_Config_getMaxRequests(cfg, &ml);
-		printf(" conf_maxreq=%llu", ml ? (unsigned long long)KSI_Integer_getUInt64(ml) : 0ULL);
+		KSI_Config *cfg = NULL; KSI_AsyncHandle_getConfig(h, &cfg); print_cfg(cfg);
 	}
 }
 
@@ -142,6 +195,21 @@ int main(void) {
 			KSI_AsyncService_setOption(as, KSI_ASYNC_OPT_MAX_REQUEST_COUNT, (void *)(size_t)atol(tok[4]));
 			KSI_AsyncService_setOption(as, KSI_ASYNC_OPT_CON_TIMEOUT, (void *)(size_t)atol(tok[5]));
 			printf("R new rc=%d\n", rc);
+		} else if (!strcmp(tok[0], "HANEW")) {
+			int rc, k, nep = atoi(tok[1]);
+			free_all(); reset_net();
+			KSI_CTX_new(&ctx);
+			rc = KSI_SigningHighAvailabilityService_new(ctx, &as);
+			for (k = 0; k < nep && rc == KSI_OK; k++) { char uri[64]; snprintf(uri, sizeof(uri), "ksi+tcp://h%d.example:1", k); rc = KSI_AsyncService_addEndpoint(as, uri, "anon", "anon"); }
+			if (rc == KSI_OK) rc = KSI_AsyncService_setOption(as, KSI_ASYNC_OPT_REQUEST_CACHE_SIZE, (void *)(size_t)atol(tok[2]));
+			KSI_AsyncService_setOption(as, KSI_ASYNC_OPT_SND_TIMEOUT, (void *)(size_t)atol(tok[3]));
+			KSI_AsyncService_setOption(as, KSI_ASYNC_OPT_RCV_TIMEOUT, (void *)(size_t)atol(tok[4]));
+			KSI_AsyncService_setOption(as, KSI_ASYNC_OPT_MAX_REQUEST_COUNT, (void *)(size_t)atol(tok[5]));
+			KSI_AsyncService_setOption(as, KSI_ASYNC_OPT_CON_TIMEOUT, (void *)(size_t)atol(tok[6]));
+			{ KSI_LIST(KSI_AsyncService) *subs = NULL; size_t j;    /* number the sub-services in endpoint order */
+			  if (KSI_AsyncService_getOption(as, KSI_ASYNC_OPT_HA_SUBSERVICE_LIST, (void *)&subs) == KSI_OK && subs != NULL)
+				for (j = 0; j < KSI_AsyncServiceList_length(subs); j++) { KSI_AsyncService *x = NULL; KSI_AsyncServiceList_elementAt(subs, j, &x); svc_index(x); } }
+			printf("R hanew rc=%d subs=%d\n", rc, nsvc);
 		} else if (!strcmp(tok[0], "ADD")) {
 			long tag = atol(tok[1]); size_t hl; unsigned char *hb = hx_dec(tok[2], &hl); KSI_DataHash *hsh = NULL; KSI_AsyncHandle *h = NULL; int rc;
 			KSI_uint64_t id = 0;
@@ -155,7 +223,9 @@ int main(void) {
 			rc = KSI_AsyncService_run(as, &h, &waiting);
 			KSI_AsyncService_getPendingCount(as, &pending); KSI_AsyncService_getReceivedCount(as, &received);
 			printf("R run rc=0x%x waiting=%zu pending=%zu received=%zu", rc, waiting, pending, received);
-			if (h != NULL) { const void *tag = NULL; print_handle(h); KSI_AsyncHandle_getRequestCtx(h, &tag); if (tag && held[(size_t)tag - 1] == h) held[(size_t)tag - 1] = NULL; KSI_AsyncHandle_free(h); }
+			if (h != NULL) { const void *tag = NULL; int st = -1; print_handle(h); KSI_AsyncHandle_getState(h, &st); KSI_AsyncHandle_getRequestCtx(h, &tag);
+				if (st != KSI_ASYNC_STATE_ERROR_NOTICE && st != KSI_ASYNC_STATE_PUSH_CONFIG_RECEIVED && tag && (size_t)tag - 1 < MAXH && held[(size_t)tag - 1] == h) held[(size_t)tag - 1] = NULL;
+				KSI_AsyncHandle_free(h); }
 			else printf(" h=-");
 			printf("\n");
 		} else if (!strcmp(tok[0], "STATES")) {
@@ -164,16 +234,18 @@ int main(void) {
 			printf("\n");
 		} else if (!strcmp(tok[0], "S2C")) {
 			size_t l; unsigned char *b = hx_dec(tok[1], &l);
-			if (s2c_len + l > s2c_cap) { s2c_cap = (s2c_len + l) * 2 + 64; s2c = realloc(s2c, s2c_cap); }
-			memcpy(s2c + s2c_len, b, l); s2c_len += l; free(b);
-		} else if (!strcmp(tok[0], "CHUNKS")) { nchunks = chunk_i = 0; for (i = 1; i < n && nchunks < 4096; i++) chunks[nchunks++] = atol(tok[i]);
-		} else if (!strcmp(tok[0], "SENDCAPS")) { ncaps = cap_i = 0; for (i = 1; i < n && ncaps < 4096; i++) sendcaps[ncaps++] = atol(tok[i]);
-		} else if (!strcmp(tok[0], "POLL")) { poll_mode = !strcmp(tok[1], "ready") ? P_READY : !strcmp(tok[1], "notready") ? P_NOTREADY : !strcmp(tok[1], "hup") ? P_HUP : !strcmp(tok[1], "noout") ? P_NOOUT : P_ERR;
-		} else if (!strcmp(tok[0], "PEERCLOSE")) { peer_closed = 1;
-		} else if (!strcmp(tok[0], "PEERRESET")) { peer_reset = 1;
+			Ep *e = &eps[cur_ep];
+			if (e->s2c_len + l > e->s2c_cap) { e->s2c_cap = (e->s2c_len + l) * 2 + 64; e->s2c = realloc(e->s2c, e->s2c_cap); }
+			memcpy(e->s2c + e->s2c_len, b, l); e->s2c_len += l; free(b);
+		} else if (!strcmp(tok[0], "CHUNKS")) { Ep *e = &eps[cur_ep]; e->nchunks = e->chunk_i = 0; for (i = 1; i < n && e->nchunks < 4096; i++) e->chunks[e->nchunks++] = atol(tok[i]);
+		} else if (!strcmp(tok[0], "SENDCAPS")) { Ep *e = &eps[cur_ep]; e->ncaps = e->cap_i = 0; for (i = 1; i < n && e->ncaps < 4096; i++) e->sendcaps[e->ncaps++] = atol(tok[i]);
+		} else if (!strcmp(tok[0], "POLL")) { eps[cur_ep].poll_mode = !strcmp(tok[1], "ready") ? P_READY : !strcmp(tok[1], "notready") ? P_NOTREADY : !strcmp(tok[1], "hup") ? P_HUP : !strcmp(tok[1], "noout") ? P_NOOUT : P_ERR;
+		} else if (!strcmp(tok[0], "PEERCLOSE")) { eps[cur_ep].peer_closed = 1;
+		} else if (!strcmp(tok[0], "PEERRESET")) { eps[cur_ep].peer_reset = 1;
 		} else if (!strcmp(tok[0], "TICK")) { vclock += atol(tok[1]);
-		} else if (!strcmp(tok[0], "CONNECT")) { connect_mode = !strcmp(tok[1], "ok") ? 1 : !strcmp(tok[1], "refused") ? 2 : 0;
-		} else if (!strcmp(tok[0], "GAI")) { gai_fail = !strcmp(tok[1], "fail");
+		} else if (!strcmp(tok[0], "CONNECT")) { eps[cur_ep].connect_mode = !strcmp(tok[1], "ok") ? 1 : !strcmp(tok[1], "refused") ? 2 : 0;
+		} else if (!strcmp(tok[0], "GAI")) { eps[cur_ep].gai_fail = !strcmp(tok[1], "fail");
+		} else if (!strcmp(tok[0], "EP")) { cur_ep = atoi(tok[1]) % NEP;
 		} else if (!strcmp(tok[0], "TNEW")) {
 			int rc; free_all(); reset_net(); KSI_CTX_new(&ctx);
 			rc = KSI_TcpAsyncClient_new(ctx, &tc);
@@ -201,6 +273,6 @@ int main(void) {
 		} else { fprintf(stderr, "unknown command %s\n", tok[0]); return 2; }
 		printf(".\n"); fflush(stdout);
 	}
-	free_all(); free(line); free(tok); free(s2c);
+	free_all(); reset_net(); free(line); free(tok);
 	return 0;
 }
